@@ -26,8 +26,9 @@ def dims_of(t):
     return dict(rd=[int(v) for v in t.row_dims], cd=[int(v) for v in t.col_dims], r0=int(t.ranks[0]), rN=int(t.ranks[-1]))
 
 
-def scenarios(rng):
-    """yields (name, [TT arguments], thunk)"""
+def scenarios(rng, variant=2):
+    """yields (name, [TT arguments], thunk); variant 0: all ranks 1 (reshaped core views are Fortran-contiguous, LAPACK
+    works in place), variant 1: all ranks 2, otherwise random ranks"""
     import scikit_tt.tensor_train as tt
     import scikit_tt.solvers.sle as sle
     import scikit_tt.solvers.evp as evp
@@ -37,11 +38,15 @@ def scenarios(rng):
     import scikit_tt.data_driven.transform as tf
     import scikit_tt.data_driven.tedmd as tedmd
     import scikit_tt.slim as slim
+    import scikit_tt.models as mdl
+    import scikit_tt.data_driven.tgedmd as tgedmd
+    import scikit_tt.data_driven.ulam as ulam
+    import scikit_tt.quantum_computation as qc
     d = rng.choice([2, 3])
     dims = [2] * d
 
     def rk():
-        return [1] + [rng.choice([1, 2]) for _ in range(d - 1)] + [1]
+        return [1] + [(1 if variant == 0 else 2 if variant == 1 else rng.choice([1, 2])) for _ in range(d - 1)] + [1]
     np.random.seed(rng.randint(0, 10 ** 6))
     G = tt.rand(dims, dims, ranks=rk())
     A = G.transpose() @ G + 2 * tt.eye(dims)
@@ -92,6 +97,50 @@ def scenarios(rng):
                                                                       basis, threshold=1e-10)
 
 
+    # ---- second part of the catalogue: remaining solver entry points, constructors, models
+    sm = np.array([[0.0, 1.0], [0.0, 0.0]])
+    sx = np.array([[0.0, 1.0], [1.0, 0.0]])
+    yield 'ode.errors_expl_euler', [H, x, g, xn], lambda: ode.errors_expl_euler(H, [x, g, xn], [0.1, 0.1])
+    yield 'ode.errors_impl_euler', [H, x, g, xn], lambda: ode.errors_impl_euler(H, [x, g, xn], [0.1, 0.1])
+    yield 'ode.errors_trapezoidal', [H, x, g, xn], lambda: ode.errors_trapezoidal(H, [x, g, xn], [0.1, 0.1])
+    # ode.tdvp (hybrid) is not in the catalogue: it raises at the first backward one-site update (finding F16, C11)
+    yield 'ode.tjm', [H, xn], lambda: ode.tjm(H, [sm, sx], [0.1, 0.2], xn, 0.01, 2)
+    yield 'ode.tjm_dissipative_operator', [], lambda: ode.tjm_dissipative_operator(d, [sm, sx], [0.1, 0.2], 0.01)
+    yield 'ode.tjm_jump_process_tdvp', [H, xn], lambda: ode.tjm_jump_process_tdvp(H, xn, [sm, sx], [0.1, 0.2], 0.01)
+    yield 'evp.als(gevp)', [H, A, g], lambda: evp.als(H, g, operator_gevp=A, repeats=2, solver='eig')
+    if variant == 1:        # micro problems of dimension >= 4 (ARPACK needs k < N - 1, eigh a valid index subset)
+        # fresh operands: the arguments above may have been truncated by the in-place calls of earlier scenarios
+        G3 = tt.rand(dims, dims, ranks=rk())
+        A3 = G3.transpose() @ G3 + 2 * tt.eye(dims)
+        g3 = tt.rand(dims, [1] * d, ranks=rk())
+        yield 'evp.als(eigs)', [A3, g3], lambda: evp.als(A3, g3, number_ev=1, repeats=2, solver='eigs', sigma=1.0)
+        g4 = tt.rand(dims, [1] * d, ranks=rk())
+        yield 'evp.als(number_ev=3)', [A3, g4], lambda: evp.als(A3, g4, number_ev=3, repeats=1, solver='eigh')
+    yield 'qc.sampling', [xn], lambda: qc.sampling(xn, [0, d - 1], 20)
+    yield 'regression.mandy_fm', [], lambda: reg.mandy_fm(xd, yd, [lambda t: 1.0 + 0 * t, lambda t: t])
+    yield 'transform.coordinate_major', [], lambda: tf.coordinate_major(xd, [lambda t: 1.0 + 0 * t, lambda t: t, lambda t: t * t])
+    yield 'transform.function_major', [], lambda: tf.function_major(xd, [lambda t: t, lambda t: t * t])
+    yield 'tedmd.amuset_hocur', [], lambda: tedmd.amuset_hocur(xd, np.arange(5), np.arange(1, 6), basis, max_rank=4)
+    yield 'tgedmd.amuset_hosvd', [], lambda: tgedmd.amuset_hosvd(xd, basis, np.random.rand(2, 2, 6), b=np.random.rand(2, 6),
+                                                                 threshold=1e-10, return_option='eigentensors')
+    yield 'tt.factories', [], lambda: (tt.zeros(dims, [1] * d), tt.ones(dims, dims), tt.eye(dims), tt.unit(dims, [0] * d),
+                                       tt.uniform(dims), tt.rand(dims, [1] * d, ranks=[1] * (d + 1)))
+    yield 'slim.slim_mme', [], lambda: slim.slim_mme([2, 3, 2], [[[0, 1, 1.0]], [[1, 2, 2.0]], []],
+                                                     [[[0, 1, 1, 0, 0.5]], [[2, 1, 0, 1, 1.5]], [[1, 0, 0, 1, 1.0]]])
+    yield 'ulam.ulam_2d', [], lambda: ulam.ulam_2d(np.array([[1, 2, 1], [1, 1, 2], [2, 1, 1], [1, 2, 2]]), [2, 2], 1)
+    if variant == 0:        # the model constructors do not depend on the variant
+        yield 'models.ising', [], lambda: mdl.ising(3, 1.0, 0.5)
+        yield 'models.qfa', [], lambda: mdl.qfa()
+        yield 'models.qfan', [], lambda: mdl.qfan(2)
+        yield 'models.simon', [], lambda: mdl.simon()
+        yield 'models.qft+iqft', [], lambda: (mdl.qft(3), mdl.iqft(3))
+        yield 'models.exciton_chain', [], lambda: mdl.exciton_chain(3, 1.0, 0.5)
+        yield 'models.co_oxidation', [], lambda: (mdl.co_oxidation(3, 1e2), mdl.co_oxidation(3, 1e2, cyclic=False))
+        yield 'models.fpu+kuramoto', [], lambda: (mdl.fpu_coefficients(3), mdl.kuramoto_coefficients(3, np.array([0.1, 0.2, 0.3])))
+        yield 'models.toll_station', [], lambda: mdl.toll_station(2, 2)
+        yield 'models.two_step_destruction', [], lambda: mdl.two_step_destruction(1.0, 2.0, 1.0, 2)
+
+
 def record_routines(seed, nrounds):
     """Returns recorded traces (same format as harness/record.py)."""
     from .common import import_repo
@@ -101,8 +150,10 @@ def record_routines(seed, nrounds):
     rng = random.Random(seed)
     traces = []
     tid = 1
-    for _ in range(nrounds):
-        for name, args, thunk in scenarios(rng):
+    for rnd in range(nrounds):
+        # deterministic cycling: rank variant and the in-place call applied to each returned object
+        variant, opshift = rnd % 3, (rnd // 3) % 4
+        for name, args, thunk in scenarios(rng, variant):
             obsv = record.Observer()
             objs, events = [], []
             for a in args:
@@ -134,13 +185,15 @@ def record_routines(seed, nrounds):
                 t = objs[k]
                 if P.metadata_problem(t) or t.ranks[0] != 1 or t.ranks[-1] != 1:
                     continue
+                if not all(np.all(np.isfinite(c)) for c in t.cores):
+                    continue        # e.g. exact DMD modes of singular data: the sweeps are specified for finite data
                 dflt_ok = t.order >= 2
                 choices = [dict(op='Ortho', a=k + 1)]
                 if dflt_ok:
                     choices += [dict(op='OrthoRight', a=k + 1, s=t.order - 1, e=1, dflt=True),
                                 dict(op='OrthoLeft', a=k + 1, s=0, e=t.order - 2, dflt=True),
                                 dict(op='OrthoTrunc', a=k + 1, which='both', maxrank=1)]
-                e2 = rng.choice(choices)
+                e2 = choices[(opshift + k) % len(choices)]
                 try:
                     record.perform(tt_mod, objs, e2)
                 except Exception as e:
